@@ -640,9 +640,9 @@ impl<'a, 'b, G: RandomAccessGraph> Iterator for DfsOrder<'a, 'b, G> {
             return None;
         }
 
-        // Start a new DFS from the next unvisited node
+        // Start a new DFS from the next unvisited node; self.root keeps
+        // pointing at it, as it is the root reported for its descendants
         let root = self.root;
-        self.root += 1;
         self.visited_nodes += 1;
 
         // Initialize the visit for this root
